@@ -5,7 +5,7 @@
    claiming steps, which lie inside the calls (program order and real-time order of non-overlapping sends follow
    from the order of the steps).  Not proved: that every stream delivers along this log (see C01). *)
 From Coq Require Import NArith List Bool.
-Require Import MQ.Arith64 MQ.Arith64Facts MQ.Types MQ.State MQ.Model MQ.Exec MQ.Reach MQ.Fields MQ.InvLogOrder MQ.InvHead.
+Require Import MQ.Arith64 MQ.Arith64Facts MQ.Types MQ.State MQ.Model MQ.Exec MQ.Reach MQ.Fields MQ.InvLogOrder MQ.InvHead MQ.InvPos.
 Import ListNotations.
 Open Scope N_scope.
 
@@ -22,6 +22,20 @@ Proof. exact head_is_log_length. Qed.
 Check C02_position_is_claim_rank : forall c fut s,
   reach c fut s -> lenN (ags s) < B62 -> head (sh s) = lenN (g_log (sh s)) mod MASK_IND.
 Print Assumptions C02_position_is_claim_rank.
+
+(* every consumer's commit moves its stream's cursor from p to p + 1: positions are handed out in order *)
+Theorem C02_cursor_advances_by_one : forall c fut s a A o sg,
+  reach c fut s -> lenN (ags s) < B62 -> get (ags s) a = Some A -> micro c a A (sh s) = Some o ->
+  gpos (o_s o) sg = gpos (sh s) sg \/
+  (a_sid A = sg /\ (a_pc A = R12 \/ a_pc A = V4) /\ gpos (o_s o) sg = next_count (gpos (sh s) sg)) \/
+  (a_pc A = A2 /\ sg = nsid (sh s) /\ gpos (o_s o) sg = gpos (sh s) (a_sid A)).
+Proof. intros c fut s a A o sg R. apply (cursor_steps c fut). now apply reach_mreach. Qed.
+Check C02_cursor_advances_by_one : forall c fut s a A o sg,
+  reach c fut s -> lenN (ags s) < B62 -> get (ags s) a = Some A -> micro c a A (sh s) = Some o ->
+  gpos (o_s o) sg = gpos (sh s) sg \/
+  (a_sid A = sg /\ (a_pc A = R12 \/ a_pc A = V4) /\ gpos (o_s o) sg = next_count (gpos (sh s) sg)) \/
+  (a_pc A = A2 /\ sg = nsid (sh s) /\ gpos (o_s o) sg = gpos (sh s) (a_sid A)).
+Print Assumptions C02_cursor_advances_by_one.
 
 Example C02_witness :
   let c := mk_cfg MPMC 4 WBusy in
